@@ -16,88 +16,30 @@ def cli():
 
 
 def _ast_to_dict(doc):
-    """Convert AST Document to dictionary for JSON/YAML export."""
-    from octave_mcp.core.ast_nodes import Assignment, Block, HolographicValue, InlineMap, ListValue
+    """Convert AST Document to dictionary for JSON/YAML export.
 
-    def convert_value(value):
-        if isinstance(value, ListValue):
-            return [convert_value(item) for item in value.items]
-        elif isinstance(value, InlineMap):
-            return {k: convert_value(v) for k, v in value.pairs.items()}
-        elif isinstance(value, dict):
-            return {k: convert_value(v) for k, v in value.items()}
-        elif isinstance(value, HolographicValue):
-            return value.raw_pattern
-        return value
+    Delegates to the MCP octave_eject converter so that both entry points agree: the CLI copy
+    had fallen behind (no literal zone, holographic or nested-META handling), so
+    `octave eject --format json` failed with "Object of type LiteralZoneValue is not JSON
+    serializable" and yaml/markdown leaked Python reprs.
+    """
+    from octave_mcp.mcp.eject import _ast_to_dict as _impl
 
-    def convert_block(block):
-        result = {}
-        for child in block.children:
-            if isinstance(child, Assignment):
-                result[child.key] = convert_value(child.value)
-            elif isinstance(child, Block):
-                result[child.key] = convert_block(child)
-        return result
-
-    result = {}
-    if doc.meta:
-        result["META"] = {k: convert_value(v) for k, v in doc.meta.items()}
-    for section in doc.sections:
-        if isinstance(section, Assignment):
-            result[section.key] = convert_value(section.value)
-        elif isinstance(section, Block):
-            result[section.key] = convert_block(section)
-    return result
+    return _impl(doc)
 
 
 def _block_to_markdown(block, lines, level=3):
-    """Convert Block to Markdown recursively.
+    """Convert Block to Markdown recursively (shared with the MCP octave_eject tool)."""
+    from octave_mcp.mcp.eject import _block_to_markdown as _impl
 
-    CRS-FIX #2: Complete implementation that processes nested block children.
-
-    Args:
-        block: Block node
-        lines: Output lines list (mutated)
-        level: Heading level
-    """
-    from octave_mcp.core.ast_nodes import Assignment, Block
-
-    for child in block.children:
-        if isinstance(child, Assignment):
-            lines.append(f"- **{child.key}**: {child.value}")
-        elif isinstance(child, Block):
-            lines.append(f"{'#' * level} {child.key}")
-            lines.append("")
-            _block_to_markdown(child, lines, level + 1)
+    _impl(block, lines, level)
 
 
 def _ast_to_markdown(doc):
-    """Convert AST Document to Markdown format.
+    """Convert AST Document to Markdown format (shared with the MCP octave_eject tool)."""
+    from octave_mcp.mcp.eject import _ast_to_markdown as _impl
 
-    CRS-FIX #2: Complete implementation that processes nested block children,
-    matching the MCP octave_eject tool behavior.
-    """
-    from octave_mcp.core.ast_nodes import Assignment, Block
-
-    lines = [f"# {doc.name}", ""]
-
-    if doc.meta:
-        lines.append("## META")
-        lines.append("")
-        for key, value in doc.meta.items():
-            lines.append(f"- **{key}**: {value}")
-        lines.append("")
-
-    for section in doc.sections:
-        if isinstance(section, Assignment):
-            lines.append(f"**{section.key}**: {section.value}")
-            lines.append("")
-        elif isinstance(section, Block):
-            lines.append(f"## {section.key}")
-            lines.append("")
-            _block_to_markdown(section, lines, level=3)
-
-    return "\n".join(lines)
+    return _impl(doc)
 
 
 def _compute_allowed_root_for_check(doc, base_path):
